@@ -24,7 +24,14 @@ def run_property(prop, tier, repo, only=None, quiet=False, overrides=None, write
     errors = []
     model = Model(repo, overrides)
     import re as _re
-    specs = [(r, None) if isinstance(r, str) else (r[0], _re.compile(r[1])) for r in PROPS[prop]['rules']]
+    ro = model.roles
+    subst = {'_slice_val_to_idx': ro.NORMALISE, '_AnsiSettingsIterator': ro.ITERATOR, '_scrub_ansi_settings': ro.SCRUB, '_AnsiSettingPoint': ro.POINT}
+
+    def _flt(rx):
+        for a, b in subst.items():
+            rx = rx.replace(a, _re.escape(b))
+        return _re.compile(rx)
+    specs = [(r, None) if isinstance(r, str) else (r[0], _flt(r[1])) for r in PROPS[prop]['rules']]
     specs = [(r, f) for r, f in specs if r in RULES]
     if tier == 'thorough':
         # thorough: every rule of the property armed on all of its obligations (no per-property construct filter)
@@ -51,9 +58,9 @@ def run_property(prop, tier, repo, only=None, quiet=False, overrides=None, write
         flt = filters.get(rid)
         if flt is not None:
             kept = [o for o in got if flt.search('%s :: %s' % (o.func, o.construct))]
-            if not kept and got:
-                errors.append('%s: the construct filter of %s selects none of its %d obligations' % (rid, prop, len(got)))
-            got = kept
+            if kept or not got:
+                got = kept
+            # (a filter that selects nothing -- a private helper was renamed -- falls back to the whole rule: no vacuous pass)
         obls.extend(got)
     known = report.load_known()
     known_hits, fresh = [], []
